@@ -85,9 +85,56 @@ def _names(fn):
     return out
 
 
+def _inline_return_temps(fn):
+    """`x = <expr>` immediately followed by `return x` is rewritten to `return <expr>` (always behaviour-preserving: nothing
+    can read that definition of x after the return). Rules look at return expressions; a pass-through local is a benign
+    refactor. `x = f(x); return x` is left alone (the rules name such re-bindings, e.g. `state = self.index_state(state)`)."""
+    stores, loads = {}, {}
+    for n in ast.walk(fn):
+        if isinstance(n, ast.Name):
+            (stores if isinstance(n.ctx, ast.Store) else loads).setdefault(n.id, []).append(n)
+    n_done = 0
+
+    def blocks(node):
+        for f in ("body", "orelse", "finalbody"):
+            b = getattr(node, f, None)
+            if isinstance(b, list) and b and isinstance(b[0], ast.stmt):
+                yield b
+        for h in getattr(node, "handlers", []) or []:
+            yield h.body
+
+    stack = [fn]
+    while stack:
+        node = stack.pop()
+        for b in blocks(node):
+            i = 0
+            while i + 1 < len(b):
+                a, r = b[i], b[i + 1]
+                if isinstance(a, ast.Assign) and len(a.targets) == 1 and isinstance(a.targets[0], ast.Name) and isinstance(r, ast.Return) \
+                        and isinstance(r.value, ast.Name) and r.value.id == a.targets[0].id \
+                        and r.value.id not in {x.id for x in ast.walk(a.value) if isinstance(x, ast.Name)}:
+                    r.value = a.value
+                    del b[i]
+                    n_done += 1
+                    continue
+                i += 1
+            for st in b:
+                if not isinstance(st, (ast.FunctionDef, ast.AsyncFunctionDef, ast.ClassDef)):
+                    stack.append(st)
+    return n_done
+
+
 def canonicalise(repo):
     """mutates the function ASTs of `repo` in place; returns the list of renames performed"""
     done = []
+    for m in repo.modules.values():
+        for st in m.tree.body:
+            fns = [st] if isinstance(st, (ast.FunctionDef, ast.AsyncFunctionDef)) else \
+                [x for x in st.body if isinstance(x, (ast.FunctionDef, ast.AsyncFunctionDef))] if isinstance(st, ast.ClassDef) else []
+            for fn in fns:
+                k = _inline_return_temps(fn)
+                if k:
+                    done.append((m.name, fn.name, "<return temps inlined>", k))
     for (modname, qual), ent in TABLE.items():
         if modname not in repo.modules:
             continue
